@@ -543,19 +543,27 @@ fn format_directive<'entry>(
             }
         }
 
-        FormatDirective::Type { follow_links } => if file_info.path_is_symlink() {
-            if *follow_links {
+        // %y is the type that -type tests (the entry as the follow mode sees
+        // it), %Y the one that -xtype tests (the opposite choice).
+        FormatDirective::Type { follow_links } => {
+            let file_type = file_info.file_type();
+            if *follow_links && !file_info.follow() && file_type.is_symlink() {
+                // A link that is not followed: report what it points to.
                 match file_info.path().metadata().map_err(WalkError::from) {
                     Ok(meta) => format_non_link_file_type(meta.file_type().into()),
                     Err(e) if e.is_not_found() => 'N',
                     Err(e) if e.is_loop() => 'L',
                     Err(_) => '?',
                 }
-            } else {
+            } else if file_type.is_symlink()
+                || (*follow_links && file_info.follow() && file_info.path_is_symlink())
+            {
+                // An unresolved link, or (for %Y) a link that the follow mode
+                // resolved.
                 'l'
+            } else {
+                format_non_link_file_type(file_type)
             }
-        } else {
-            format_non_link_file_type(file_info.file_type())
         }
         .to_string()
         .into(),
